@@ -11,7 +11,9 @@
 (* Theorems: ThmSafe (the output is safe: intended configuration), ThmInert (structure: a     *)
 (* disallowed tag becomes exactly one Characters token, an allowed one keeps type/name and a  *)
 (* sub-list of its attributes, anything else is untouched, comments vanish), ThmExplained     *)
-(* (whatever is unsafe in the code-faithful configuration is safe in the intended one).       *)
+(* (whatever is unsafe in the code-faithful configuration is safe in the intended one),       *)
+(* ThmIndependent (the image of a tag is the concatenation of the images of its one-attribute *)
+(* tags: no attribute's treatment depends on the others or on the order they are visited in). *)
 EXTENDS Sanitizer, TLC, Json
 CONSTANTS Mode, MaxLen, Export, CheckProperty
 
@@ -20,12 +22,13 @@ S_mi == <<109, 105>>  S_br == <<98, 114>>  S_meta == <<109, 101, 116, 97>>  S_re
 S_onclick == <<111, 110, 99, 108, 105, 99, 107>>  S_fill == <<102, 105, 108, 108>>  S_id == <<105, 100>>  S_base == <<98, 97, 115, 101>>
 S_http == <<104, 116, 116, 112>>  S_png == <<105, 109, 97, 103, 101, 47, 112, 110, 103>>
 S_color == <<99, 111, 108, 111, 114>>  S_width == <<119, 105, 100, 116, 104>>  S_red == <<114, 101, 100>>  S_solid == <<115, 111, 108, 105, 100>>
+S_cite == <<99, 105, 116, 101>>
 S_important == <<33, 105, 109, 112, 111, 114, 116, 97, 110, 116>>  S_stroke == <<115, 116, 114, 111, 107, 101>>
 
 \* ---- allow-list configurations (exported once, in the initial state, so that the replay builds the same Filter) ----
 Lbase == [el |-> {<<NS_html, S_a>>, <<NS_html, S_p>>, <<NS_html, S_br>>, <<NS_svg, S_svg>>, <<NS_svg, S_use>>, <<NS_svg, S_rect>>, <<NS_mathml, S_mi>>},
-          at |-> {<<None, N_href>>, <<None, A_style>>, <<None, S_fill>>, <<None, S_id>>, <<NS_xlink, N_href>>, <<NS_xml, S_base>>},
-          uri |-> {<<None, N_href>>, <<NS_xlink, N_href>>, <<NS_xml, S_base>>},
+          at |-> {<<None, N_href>>, <<None, A_style>>, <<None, S_fill>>, <<None, S_id>>, <<NS_xlink, N_href>>, <<NS_xml, S_base>>, <<None, S_cite>>},
+          uri |-> {<<None, N_href>>, <<NS_xlink, N_href>>, <<NS_xml, S_base>>, <<None, S_cite>>},
           ref |-> {<<None, S_fill>>}, loc |-> {},
           prot |-> {S_http, U_data}, ct |-> {S_png, U_textplain},
           cp |-> {S_color, S_width}, ck |-> {S_red, S_solid, S_important}, sp |-> {S_fill, S_stroke}]
@@ -54,6 +57,14 @@ AttrChoices == {
     <<NS_xlink, N_href, <<106, 97, 118, 97, 115, 99, 114, 105, 112, 116, 58, 120>>>>,
     <<NS_xlink, N_href, <<32, 35, 97>>>>, <<NS_xlink, N_href, <<104, 116, 116, 112, 58, 120>>>>,         \* " #a"  http:x
     <<NS_xml, S_base, <<118, 98, 115, 99, 114, 105, 112, 116, 58, 120>>>>,                               \* vbscript:x
+    \* several URI-valued attributes on ONE element: every URI key has a forbidden value AND values that take an exceptional
+    \* path (urlsplit ValueError, the data: branch, the empty value), so that both role assignments of every pair are explored
+    <<NS_xlink, N_href, <<47, 47, 91>>>>, <<NS_xml, S_base, <<104, 58, 47, 47, 93>>>>,                   \* //[   h://]
+    <<NS_xml, S_base, <<100, 97, 116, 97, 58, 116, 101, 120, 116, 47, 104, 116, 109, 108, 44, 120>>>>,    \* data:text/html,x
+    <<None, S_cite, <<47, 47, 91>>>>, <<None, S_cite, <<>>>>,                                            \* //[   (empty)
+    <<None, S_cite, <<106, 97, 118, 97, 115, 99, 114, 105, 112, 116, 58, 120>>>>,                        \* javascript:x
+    <<None, S_cite, <<100, 97, 116, 97, 58, 105, 109, 97, 103, 101, 47, 112, 110, 103, 44, 120>>>>,       \* data:image/png,x
+    <<None, N_href, <<>>>>,
     <<None, S_fill, <<117, 114, 108, 40, 104, 116, 116, 112, 58, 120, 41, 32, 117, 114, 108, 40, 35, 97, 41>>>>,   \* url(http:x) url(#a)
     <<None, S_fill, <<85, 82, 76, 40, 120, 121, 41, 38, 108, 116, 59>>>>,                                \* URL(xy)&lt;
     <<None, A_style, <<99, 111, 108, 111, 114, 58, 32, 114, 101, 100>>>>,                                \* color: red
@@ -109,6 +120,7 @@ ThmInert == Mode = "tok" =>
     /\ (r.r = "none") = (tok.t = "Comment")
     /\ (r.r = "tok" => InertImage(tok, r.tok, L))
     /\ (r.r = "raise" => IsTag(tok) /\ AllowedEl(tok, L))
+ThmIndependent == Mode = "tok" => AttrsIndependent(tok, L, KnownDefects)
 ThmExplained ==
     CASE Mode = "tok" -> (~OutSafe(KnownDefects)) => OutSafe({})
       [] IsCss -> (~CssSafe(SanitizeCss(v, L, KnownDefects), L)) => CssSafe(SanitizeCss(v, L, {}), L)
